@@ -639,14 +639,19 @@ def retireCommittee (L : Ledger) (c : Nat) : Ledger :=
   if L.retired.contains c then L
   else { L with retired := L.retired.filter (· < c) ++ [c] ++ L.retired.filter (· > c) }
 
+/-- `CommitteeData.addPercents` for a non-zero percent: add to the first stub of that address, else append -/
+def addPercentAt : List (Addr × Nat) → Addr → Nat → M (List (Addr × Nat))
+  | [], a, p => .ok [(a, p)]
+  | (b, old) :: t, a, p =>
+    if b = a then
+      if old > MAXU - p then .error .invalidPercentAllocation else .ok ((b, old + p) :: t)
+    else match addPercentAt t a p with
+      | .error e => .error e
+      | .ok t' => .ok ((b, old) :: t')
+
 /-- `CommitteeData.addPercents` -/
 def addPercent (ps : List (Addr × Nat)) (a : Addr) (p : Nat) : M (List (Addr × Nat)) :=
-  if p = 0 then .ok ps
-  else match ps.find? (·.1 = a) with
-    | some (_, old) =>
-      if old > MAXU - p then .error .invalidPercentAllocation
-      else .ok (ps.map fun e => if e.1 = a then (a, old + p) else e)
-    | none => .ok (ps ++ [(a, p)])
+  if p = 0 then .ok ps else addPercentAt ps a p
 
 /-- `UpsertCommitteeData` with `CommitteeData.Combine`: `pay` = (address, percent, chain id) -/
 def upsertCommitteeData (L : Ledger) (chain qcHeight qcRootHeight : Nat) (pay : List (Addr × Nat × Nat)) : M Ledger :=
